@@ -18,14 +18,22 @@ P = {
          "refinement to abstract spec + exactness oracle; differential correspondence", "7 C05"),
  "C06": ("decision theorem: verdict = valid iff size ok and checksum equals the used digest case-insensitively, on both checksum paths; mismatch classes; refutation of the as-found case-sensitive path; correspondence over algorithms x spellings x checksum case x size x prior state",
          "decision logic stated outright; differential correspondence", "7 C06"),
+ "C07": ("partial: the interleaving semantics extends the sequential one (a thread running alone computes the sequential result from any scheduling point); mutual exclusion for any number of threads and every schedule; static discipline of every call under every interleaving; the full statement is refuted by three decide-checked schedules (K1 dedupe window, K2 tag || delete, K5 store rejected during a delete) = known findings replayed on the real threads each run; section-level linearizability not proved. Real threads run the real calls under a controlled scheduler; each real schedule is replayed on the Lean interleaving model (results and final state agree) and judged against all sequential orders on the Lean spec",
+         "interleaving semantics + monitor invariants + refutation witnesses; schedule-replay correspondence, linearizability oracle", "7 C07, 9"),
+ "C08": ("every public call is lock-disciplined for all answers of the file system (class order objPid < refPid < cid < doc, releases what it holds, returns holding nothing) — proved for all nine call programs; run alone from free lists a call is never blocked and leaves the lists empty under every fault plan (induction over the program tree), also over whole histories; monitor model (wait-until-absent/append, remove/notify-one) for any number of threads: mutual exclusion, no lost wake-up, deadlock freedom, all free at quiescence. Trusted: Condition implements the monitor",
+         "lock-discipline predicate over all program trees + monitor invariants by induction over transitions; scheduler and fault sweeps on the real code", "7 C08"),
  "C09": ("static effect discipline proved for every call and every response sequence (Shape): an object is published only at the address of its own digest; that invariant is preserved by every single effect, hence holds in the final state, at every crash prefix, in every intermediate state, under every fault plan and over whole histories; objects / documents / pid references change only by whole-file steps; the real call's intermediate directory states (snapshot after every mutating primitive) are compared with the model's and checked directly (every object hashes to its name, documents complete, pid references complete); in-place writes flagged",
          "invariant over all program trees (AllEv) + per-effect preservation, lifted to run / crash prefix / intermediate states; intermediate-state correspondence", "7 C09"),
  "C10": ("partial: for every call on pid p, at every crash point and under every fault plan, every other pid (distinct hash) keeps its pid reference and all its documents; pid-less calls touch none; objects stay well addressed. Not proved for the model: membership of other pids in shared lists and the delete-then-store recovery; both are checked on the real code at every crash point of every scripted scenario (reopened store on the snapshot directory)",
          "frame invariant over all program trees (AllEv) lifted to every crash prefix; crash-point sweep with recovery on the real code", "7 C10, 9"),
+ "C12": ("partial: documents change only by whole-file steps (reader sees a complete version or not-found); document-name mutual exclusion for every schedule; two single-document deletes exclude each other; full statement refuted with delete-all in the menu (K3, decide-checked schedule, replayed on real threads); repaired defect D7. Scheduler runs of the metadata menu with replay on the Lean interleaving model and the linearizability oracle",
+         "monitor invariants + atomicity lemma + refutation witness; schedule-replay correspondence", "7 C12, 9"),
  "C13": ("partial: the fault plan is part of the one interpreter, so the frame (other pids untouched) and addressing theorems hold under every plan; lemmas on how plans fire (one-off fires once, one-off rename absorbed by the copy fallback); the full statement is refuted for the model by a decide-checked witness (persistent read failure during tag_object leaves the pid half-bound, retry rejected) = known finding K4, replayed on the real code each run; model and code are run under the same plan at every fault site (once / persistent, EIO / ENOSPC / EACCES) and agree on result, state, locks and retry",
          "invariants over all program trees under the fault semantics + refutation witness; per-site fault-injection correspondence", "7 C13, 9"),
  "C11": ("spec-level theorems: store/retrieve round trip, default-namespace equivalence, isolation of other (pid, format) pairs, delete-one / delete-all / delete_object lifetimes, key injectivity under NoColl incl. concatenation-colliding pairs; correspondence on metadata histories",
          "refinement to abstract spec (map laws); differential correspondence", "7 C11"),
+ "C16": ("partial: one program text and one monitor for both modes, so every theorem about calls and about the monitor holds in both; nothing left locked in either mode; exclusion and progress for any number of workers. Mode-specific code (existence of the _mp primitives — repaired defect D4 — and the duplicated sections) is tied by correspondence: sequential histories on a store built with USE_MULTIPROCESSING=True, and the C07/C12 menus under the scheduler through the _mp attributes; real forked workers as supporting evidence. Trusted: multiprocessing primitives behave across processes as threading ones across threads",
+         "mode-independence of the model + monitor theorems; correspondence in multiprocessing mode", "7 C16, 9"),
  "C17": ("spec-level theorem: every error other than the four 'late' classes leaves the state unchanged, read-only calls always do; decision tables for the argument checkers; correspondence on a grammar of invalid arguments with byte-exact before/after snapshots",
          "frame theorem + decision tables; differential correspondence", "7 C17"),
  "C14": ("decision theorems over the configuration model: reopen succeeds iff depth/width (int-coerced), algorithm and namespace equal the stored ones; an existing yaml is never rewritten; data directories without a yaml are refused; creation iff one of the five DataONE names; table equalities (accepted algorithms, required keys, subfolders) against the source; grid of (creation, reopening) pairs with byte snapshots on the real constructor",
